@@ -19,6 +19,10 @@ enum Act {
     FromSlice(Vec<u8>),
     FromIter(Vec<u8>),
     New(u8),
+    /// the same constructors / point assignment fed with elements that carry a stale pending modifier
+    FromSliceDirty(Vec<u8>),
+    NewDirty(u8),
+    SetDirty(u8, u8),
     Set(u8, u8),
     Modify(u8, u8, u8),
     Ask(u8, u8),
@@ -52,12 +56,14 @@ struct Sys<A: Alg> {
     mode: Mode,
     /// which constructor families start the search
     all_inits: bool,
+    /// elements carry stale pending modifiers (read back from another tree)
+    dirty: bool,
     _p: std::marker::PhantomData<A>,
 }
 
 impl<A: Alg> Sys<A> {
     fn new(n: usize, mode: Mode, all_inits: bool) -> Self {
-        Sys { n, mode, all_inits, _p: std::marker::PhantomData }
+        Sys { n, mode, all_inits, dirty: false, _p: std::marker::PhantomData }
     }
 
     fn check_all_singles(&self, s: &St<A>) -> Result<(), String> {
@@ -102,6 +108,19 @@ impl<A: Alg> System for Sys<A> {
             }
             vecs.push(xs);
         }
+        if self.dirty {
+            let mut f = 0u32;
+            if A::dirty_item(&A::elem(0, &mut f)).is_none() {
+                return vec![];
+            }
+            for xs in &vecs {
+                v.push(Act::FromSliceDirty(xs.clone()));
+            }
+            for e in 0..k {
+                v.push(Act::NewDirty(e as u8));
+            }
+            return v;
+        }
         for xs in &vecs {
             v.push(Act::FromIter(xs.clone()));
         }
@@ -134,6 +153,15 @@ impl<A: Alg> System for Sys<A> {
                 let el = A::elem(*e as usize, &mut fresh);
                 (Segtree::<A::T, A::M>::new(self.n, A::item(&el)), vec![el; self.n])
             }
+            Act::FromSliceDirty(xs) => {
+                let model: Vec<A::E> = xs.iter().map(|&i| A::elem(i as usize, &mut fresh)).collect();
+                let items: Vec<A::T> = model.iter().map(|e| A::dirty_item(e).unwrap()).collect();
+                (Segtree::<A::T, A::M>::from_slice(&items), model)
+            }
+            Act::NewDirty(e) => {
+                let el = A::elem(*e as usize, &mut fresh);
+                (Segtree::<A::T, A::M>::new(self.n, A::dirty_item(&el).unwrap()), vec![el; self.n])
+            }
             _ => return Err("not a constructor".into()),
         };
         Ok(St { tree, model, fresh })
@@ -145,6 +173,9 @@ impl<A: Alg> System for Sys<A> {
         for i in 0..n {
             for e in 0..A::n_elems() as u8 {
                 v.push(Act::Set(i, e));
+                if self.dirty {
+                    v.push(Act::SetDirty(i, e));
+                }
             }
         }
         let nm = A::mods().len() as u8;
@@ -179,7 +210,13 @@ impl<A: Alg> System for Sys<A> {
     fn step(&self, s: &mut St<A>, a: &Act) -> Result<u64, String> {
         let judge01 = self.mode == Mode::C01;
         match a {
-            Act::FromSlice(_) | Act::FromIter(_) | Act::New(_) => Err("constructor inside a history".into()),
+            Act::FromSlice(_) | Act::FromIter(_) | Act::New(_) | Act::FromSliceDirty(_) | Act::NewDirty(_) => Err("constructor inside a history".into()),
+            Act::SetDirty(i, e) => {
+                let el = A::elem(*e as usize, &mut s.fresh);
+                s.tree.set(*i as usize, A::dirty_item(&el).unwrap());
+                s.model[*i as usize] = el;
+                Ok(0)
+            }
             Act::Set(i, e) => {
                 let el = A::elem(*e as usize, &mut s.fresh);
                 s.tree.set(*i as usize, A::item(&el));
@@ -289,6 +326,9 @@ impl<A: Alg> System for Sys<A> {
             Act::FromSlice(_) => "from_slice",
             Act::FromIter(_) => "from_iter",
             Act::New(_) => "new",
+            Act::FromSliceDirty(_) => "from_slice_dirty",
+            Act::NewDirty(_) => "new_dirty",
+            Act::SetDirty(..) => "set_dirty",
             Act::Set(..) => "set",
             Act::Modify(..) => "modify",
             Act::Ask(..) => "ask",
@@ -310,7 +350,11 @@ struct Part {
 }
 
 fn run_part<A: Alg>(label: &str, n: usize, mode: Mode, depth: Option<usize>, all_inits: bool, wall: f64) -> Part {
-    let sys = Sys::<A>::new(n, mode, all_inits);
+    let mut sys = Sys::<A>::new(n, mode, all_inits);
+    if let Some(base) = label.strip_suffix("+stale-tags") {
+        let _ = base;
+        sys.dirty = true;
+    }
     let cfg = ExploreCfg { max_depth: depth, max_states: 30_000_000, wall_cap_s: wall };
     let t0 = std::time::Instant::now();
     let res = explore(&sys, &cfg);
@@ -321,6 +365,30 @@ fn replay_part(label: &str, n: usize, mode: Mode, hist: &[Value]) -> Result<(), 
     macro_rules! go {
         ($a:ty) => {
             replay_history(&Sys::<$a>::new(n, mode, true), hist)
+        };
+    }
+    macro_rules! god {
+        ($a:ty) => {{
+            let mut sys = Sys::<$a>::new(n, mode, true);
+            sys.dirty = true;
+            replay_history(&sys, hist)
+        }};
+    }
+    if let Some(base) = label.strip_suffix("+stale-tags") {
+        return match base {
+            "W" => god!(AlgW),
+            "A3" => god!(AlgA3),
+            "Fr" => god!(AlgFr),
+            "SumAdd<Z4>" => god!(AlgSumAddZ4),
+            "MinAdd<i64>" => god!(AlgMinAdd),
+            "MaxAdd<i64>" => god!(AlgMaxAdd),
+            "SumAdd<i64>" => god!(AlgSumAdd),
+            "Comb<MinAdd,MaxAdd>" => god!(Comb<AlgMinAdd, AlgMaxAdd>),
+            "Comb<Comb<MinAdd,MaxAdd>,SumAdd>" => god!(Comb<Comb<AlgMinAdd, AlgMaxAdd>, AlgSumAdd>),
+            _ => {
+                eprintln!("replay: unknown algebra {label}");
+                std::process::exit(2)
+            }
         };
     }
     match label {
@@ -414,7 +482,7 @@ fn main() {
     for n in 1..=(if quick { 3 } else { 4 }) {
         parts.push(run_part::<AlgSumAddZ4>("SumAdd<Z4>", n, mode, None, true, wall));
     }
-    let bi: &[(usize, usize)] = if quick { &[(1, 4), (2, 4), (3, 3), (4, 2), (5, 2)] } else { &[(1, 5), (2, 5), (3, 4), (4, 3), (5, 3), (6, 2), (7, 2)] };
+    let bi: &[(usize, usize)] = if quick { &[(1, 4), (2, 4), (3, 3), (4, 2), (5, 1)] } else { &[(1, 5), (2, 5), (3, 4), (4, 3), (5, 3), (6, 2), (7, 2)] };
     for &(n, bd) in bi {
         parts.push(run_part::<AlgMinAdd>("MinAdd<i64>", n, mode, Some(bd), true, wall));
         parts.push(run_part::<AlgMaxAdd>("MaxAdd<i64>", n, mode, Some(bd), true, wall));
@@ -424,6 +492,21 @@ fn main() {
     }
     for n in 1..=(if quick { 3 } else { 4 }) {
         parts.push(run_part::<Comb<AlgSumZ3, Comb<AlgMinU8, AlgMaxU8>>>("Comb<Sum<Z3>,Comb<Min,Max>>", n, mode, None, true, wall));
+    }
+
+    // Part D: constructors and point assignments fed with elements that carry a stale pending modifier
+    // (an element read back from another tree after a range modification), bounded depth
+    let dn: &[(usize, usize)] = if quick { &[(1, 3), (2, 3), (3, 3), (4, 2)] } else { &[(1, 4), (2, 4), (3, 4), (4, 3), (5, 3), (6, 2)] };
+    for &(n, d) in dn {
+        parts.push(run_part::<AlgW>("W+stale-tags", n, mode, Some(d), true, wall));
+        parts.push(run_part::<AlgA3>("A3+stale-tags", n, mode, Some(d), true, wall));
+        parts.push(run_part::<AlgFr>("Fr+stale-tags", n, mode, Some(d), true, wall));
+        parts.push(run_part::<AlgSumAddZ4>("SumAdd<Z4>+stale-tags", n, mode, Some(d), true, wall));
+        parts.push(run_part::<AlgMinAdd>("MinAdd<i64>+stale-tags", n, mode, Some(d), true, wall));
+        parts.push(run_part::<AlgMaxAdd>("MaxAdd<i64>+stale-tags", n, mode, Some(d), true, wall));
+        parts.push(run_part::<AlgSumAdd>("SumAdd<i64>+stale-tags", n, mode, Some(d), true, wall));
+        parts.push(run_part::<Comb<AlgMinAdd, AlgMaxAdd>>("Comb<MinAdd,MaxAdd>+stale-tags", n, mode, Some(d), true, wall));
+        parts.push(run_part::<Comb<Comb<AlgMinAdd, AlgMaxAdd>, AlgSumAdd>>("Comb<Comb<MinAdd,MaxAdd>,SumAdd>+stale-tags", n, mode, Some(d), true, wall));
     }
 
     let mut states = 0u64;
